@@ -466,6 +466,90 @@ def check_refusals(ctx, env):
     ctx.require('refusal_cases', ev, 1000)
 
 
+def check_histories(ctx, envs):
+    """Conversions interleaved with other uses of the same adsorbate / material objects (shared state must not leak)."""
+    import pygaps
+    from pygaps.units.converter_mode import c_loading, c_material, c_pressure
+    ev = nt = 0
+    for name, T, c in envs[:3]:
+        ads = pygaps.Adsorbate.find(name)
+        try:
+            tt, tc = ads.t_triple(), ads.t_critical()
+        except Exception:
+            continue
+        T2 = tt + 0.77 * (tc - tt) if abs(tt + 0.77 * (tc - tt) - T) > 1 else tt + 0.6 * (tc - tt)
+        others = {
+            'enthalpy_vaporisation(press)': lambda: ads.enthalpy_vaporisation(press=0.6 * c['ps']),
+            'enthalpy_vaporisation(temp)': lambda: ads.enthalpy_vaporisation(temp=T),
+            'saturation_pressure(T2)': lambda: ads.saturation_pressure(T2),
+            'gas_density(T2)': lambda: ads.gas_density(T2),
+            'liquid_density(T)': lambda: ads.liquid_density(T),
+            'surface_tension(T)': lambda: ads.surface_tension(T),
+        }
+        convs = {
+            'absolute->relative': (lambda: c_pressure(1234.5, 'absolute', 'relative', 'Pa', None, ads, T), ru.c_pressure(1234.5, 'absolute', 'Pa', 'relative', None, c)),
+            'relative%->kPa': (lambda: c_pressure(12.5, 'relative%', 'absolute', None, 'kPa', ads, T), ru.c_pressure(12.5, 'relative%', None, 'absolute', 'kPa', c)),
+            'mass->volume_liquid': (lambda: c_loading(2.5, 'mass', 'volume_liquid', 'g', 'cm3', ads, T), ru.c_loading(2.5, 'mass', 'g', 'volume_liquid', 'cm3', c)),
+            'molar->volume_gas': (lambda: c_loading(2.5, 'molar', 'volume_gas', 'mmol', 'cm3', ads, T), ru.c_loading(2.5, 'molar', 'mmol', 'volume_gas', 'cm3', c)),
+            'volume_gas->volume_liquid': (lambda: c_loading(2.5, 'volume_gas', 'volume_liquid', 'L', 'cm3', ads, T), ru.c_loading(2.5, 'volume_gas', 'L', 'volume_liquid', 'cm3', c)),
+            'fraction(volume)->molar': (lambda: c_loading(0.2, 'fraction', 'molar', None, 'mmol', ads, T, 'volume', 'cm3'), ru.c_loading(0.2, 'fraction', None, 'molar', 'mmol', c, 'volume', 'cm3')),
+        }
+        steps = dict(others)
+        steps.update({k: v[0] for k, v in convs.items()})
+        for h in list(itertools.product(steps, repeat=1)) + list(itertools.product(steps, repeat=2)):
+            for cname, (cfn, ref) in convs.items():
+                for attr in [k for k in vars(ads) if k not in ('name', 'alias', 'properties', '_state', '_backend_mode')]:
+                    delattr(ads, attr)
+                ads._state = None
+                ads._backend_mode = None
+                for st in h:
+                    core.call(steps[st])
+                o = core.call(cfn)
+                ev += 1
+                nt += 1
+                if not o.ok or abs(float(o.value) - ref) > TOL_SI * abs(ref):
+                    ctx.violate(_viol('conversion-depends-on-history', 'adsorbate-state', {'env': [name, T], 'history': list(h), 'conversion': cname}, ref,
+                                      o.value if o.ok else o.brief(),
+                                      f'{cname} for {name}@{T} after {list(h)} = {o.value if o.ok else o.brief()} but the SI/CoolProp factor gives {ref}',
+                                      {'conversion': cname}))
+    # materials whose density / molar mass change after construction
+    def via_setter(m):
+        m.density = 3.5
+        m.molar_mass = 250.0
+
+    def via_properties(m):
+        m.properties['density'] = 3.5
+        m.properties['molar_mass'] = 250.0
+
+    def via_isotherm_dict(m):
+        pygaps.MATERIAL_LIST.append(m)
+        try:
+            from pygaps.core.baseisotherm import BaseIsotherm
+            BaseIsotherm(material={'name': m.name, 'density': 3.5, 'molar_mass': 250.0}, adsorbate='N2', temperature=77.0)
+        finally:
+            pygaps.MATERIAL_LIST.remove(m)
+
+    new = dict(density=3.5, molar_mass=250.0)
+    for how, change in (('setter', via_setter), ('properties dict', via_properties), ('isotherm created with a material dict', via_isotherm_dict)):
+        for warm in (False, True):
+            m = pygaps.Material('c01-mutable', density=2.0, molar_mass=100.0)
+            if warm:
+                c_material(1.0, 'mass', 'volume', 'g', 'cm3', m)
+                c_material(1.0, 'molar', 'mass', 'mol', 'g', m)
+            change(m)
+            for a, b in itertools.permutations([('mass', 'g'), ('volume', 'cm3'), ('molar', 'mmol')], 2):
+                o = core.call(c_material, 1.5, a[0], b[0], a[1], b[1], m)
+                ref = ru.c_material(1.5, a[0], a[1], b[0], b[1], new)
+                ev += 1
+                nt += 1
+                if not o.ok or abs(float(o.value) - ref) > TOL_SI * abs(ref):
+                    ctx.violate(_viol('conversion-ignores-updated-material', 'material', {'changed_by': how, 'used_before_change': warm, 'from': a, 'to': b}, ref,
+                                      o.value if o.ok else o.brief(),
+                                      f'c_material {a}->{b} after density/molar mass were changed ({how}) = {o.value if o.ok else o.brief()} but the current properties give {ref}',
+                                      {'changed_by': how}))
+    ctx.add('histories', ev, nt)
+
+
 def run(ctx):
     envs = environments(ctx)
     ctx.require('environments', len(envs), 3 if ctx.quick else 150)
@@ -501,6 +585,7 @@ def run(ctx):
     check_temperature(ctx)
     for e in envs[:3]:
         check_refusals(ctx, e)
+    check_histories(ctx, envs)
     ctx.cov['domain_sizes'] = {'pressure_reps': 10, 'loading_reps': 27, 'material_reps': 19, 'environments': len(envs),
                                'materials': len(MATERIALS), 'values': len(vals), 'shapes': 6}
     ctx.sample({'family': 'loading', 'env': [envs[0][0], envs[0][1]], 'from': ['molar', 'mmol'], 'to': ['volume_liquid', 'cm3'],
